@@ -189,4 +189,13 @@ theorem sizeChecks_mismatch (fs : List Fld) (h : ∃ f ∈ fs, f.koffset ≠ -1 
         · exact ih ⟨f, hm, h1, h2⟩
       · simp [hs]
 
+
+/-- The regenerated `sflags` assembly hands both declared properties through, independently:
+    `SF_STD_FIELD_POS` iff `_CFFI_F_CHECK_FIELDS`, `SF_PACKED` iff `_CFFI_F_PACKED`. -/
+theorem flagsOfTable_eq_declared (flags : Nat) : flagsOfTable flags = declaredFlags flags := by
+  unfold flagsOfTable declaredFlags hasBit Generated.StructFlags.sflagsOf
+  by_cases h1 : flags &&& Generated.StructFlags.F_CHECK_FIELDS = 0 <;>
+    by_cases h2 : flags &&& Generated.StructFlags.F_PACKED = 0 <;>
+    simp [h1, h2] <;> decide
+
 end CffiVerif.StructCheck
